@@ -1,6 +1,6 @@
 (* C01 -- every CQL value survives an encode/decode round trip.
    Model: Model/CqlCodec.v (to_binary/from_binary of cassandra/cqltypes.py, per type and protocol version), tied to
-   the source by correspondence on every run (checks/C01.py).  Statement side: norm, wf_type, py_repr in
+   the source by correspondence on every run (checks/C01.py); its marshal part equals the translated source (MarshalBridge.v).  Statement side: norm, wf_type, py_repr in
    Model/CassandraSpec.v.  All theorems hold for every protocol version pv : Z, every type tree, unbounded sizes. *)
 From Coq Require Import ZArith List Bool.
 From Verif Require Import PyBase MarshalModel Utf8Model CqlType CqlCodec CassandraSpecInt CassandraSpec C01_proofs.
